@@ -58,6 +58,8 @@ def make_param(x, st: St, name: str, spec):
         return from_const(x, st, c)
     if spec == "float":
         return V("float", "p:" + name)
+    if spec == "ctxholder":
+        return V("ctxholder", name)         # an object whose attribute `ctx` is the context (e.g. a context manager)
     if spec == "kind":
         from . import pnodes
         t = z3.String(name)
@@ -403,6 +405,7 @@ CTX_FIELDS = {
     # name -> spec ; str-valued fields are symbolic constants of the context
     "lang_code": "str", "project": "str", "title": "optstr", "section": "optstr",
     "subsection": "optstr", "quiet_output": "bool", "pre_parse": "bool",
+    "begline_enabled": "bool", "begline_disable_counter": "int",
     "NAMESPACE_DATA": ("smap", "str", {"id": "int", "name": "str", "aliases": "strlist",
                                        "content": "opq", "issubject": "opq", "istalk": "opq"}),
     "LOCAL_NS_NAME_BY_ID": ("smap", "int", "str"),
@@ -428,6 +431,8 @@ def ctx_field(x, st: St, name: str, node):
         return V("str", z3.String("ctx." + name))
     if spec == "bool":
         return V("bool", z3.Bool("ctx." + name))
+    if spec == "int":
+        return V("int", z3.Int("ctx." + name))
     if spec == "optstr":
         return V("optfield", name)
     if spec == "sset":
@@ -933,6 +938,8 @@ def spec_module(name):
 # ---------------------------------------------------------------- attributes
 
 def getattr_(x, st, v: V, name: str, node):
+    if v.k == "ctxholder":
+        return [(st, V("ctx", "ctx") if name in ("ctx", "wtp") else vopq("holder." + name))]
     if v.k in ("pnode", "kind", "kindset") or (v.k == "type" and v.t == "NodeKind"):
         from . import pnodes
         r = pnodes.getattr_(x, st, v, name, node)
